@@ -205,11 +205,17 @@ class BodyIndex:
         self._prov = {}
         self._events = None
         self._rd_cache = {}
+        self._wd_cache = {}
+        self._eo_cache = {}
 
     # ---- definitions ---------------------------------------------------------------------------
     def whole_defs(self, l):
-        return [d for d in self.defs.get(l, [])
-                if (d[2] == 'call' and not d[3]['dest']['p']) or (d[2] == 'assign' and not d[3]['place']['p'])]
+        c = self._wd_cache.get(l)
+        if c is None:
+            c = tuple(d for d in self.defs.get(l, [])
+                      if (d[2] == 'call' and not d[3]['dest']['p']) or (d[2] == 'assign' and not d[3]['place']['p']))
+            self._wd_cache[l] = c
+        return list(c)
 
     def reaching_defs(self, l, bb, idx):
         """whole definitions of local l that reach program point (bb, idx) (before statement idx)"""
@@ -541,7 +547,11 @@ class BodyIndex:
         return evs
 
     def events_on(self, root):
-        return [e for e in self.events() if root in e['roots']]
+        c = self._eo_cache.get(root)
+        if c is None:
+            c = tuple(e for e in self.events() if root in e['roots'])
+            self._eo_cache[root] = c
+        return list(c)
 
 
 class Engine:
